@@ -6,6 +6,7 @@ midpoint numbering (one new vertex per undirected edge, as `unique_rows(sorted e
 -/
 import TrimeshVerif.Proofs.Remesh
 import TrimeshVerif.Proofs.GeomRat
+import TrimeshVerif.Proofs.Winding
 namespace TV.C18
 open TV.Mat3 TV.Moments TV.Affine TV.Remesh
 
@@ -78,5 +79,44 @@ theorem C18_rat_children (a b c : TV.GeomRat.V) :
 theorem C18_rat_subdivide_volume (ts : List TV.GeomRat.Tri) : meshVolR (subdivideR ts) = meshVolR ts :=
   rat_subdivide_volume ts
 end rat
+
+
+/-! ### fix_winding: the traversal -/
+
+section winding
+open TV.Winding
+
+/-- **`fix_winding` is correct and order independent**: take the adjacent face pairs `adj`, for each pair
+    whether the shared edge runs the same way in both faces (`w`, symmetric), and *any* list of tree edges
+    in search order (`treeOrder`: every child is new) that lie in `adj` and connect the two faces of every
+    adjacent pair.  If the surface is orientable at all (some choice of reversals `y` makes every adjacent
+    pair consistent) then the reversals the traversal makes - look at the pair, reverse the child when the
+    shared edge is not opposed - leave every adjacent pair consistent, whatever the start faces, the order
+    of the components and the order of the edges handed out -/
+theorem C18_fix_winding (w : SameDir) (adj tree : List (Nat × Nat)) (h : treeOrder tree [] = true)
+    (hspan : ∀ e ∈ adj, TConn tree e.1 e.2)
+    (y : Flips) (hy : ∀ e ∈ adj, inconsistent w y e.1 e.2 = false)
+    (hsub : ∀ e ∈ tree, e ∈ adj ∨ (e.2, e.1) ∈ adj) (hsym : ∀ f g, w f g = w g f) :
+    ∀ e ∈ adj, inconsistent w (traverse w tree) e.1 e.2 = false :=
+  traverse_consistent w adj tree h hspan y hy hsub hsym
+
+/-- two consistent windings of the same surface differ by reversing whole connected components (so the
+    result of `fix_winding` is determined up to the orientation of each body, which `fix_inversion` then
+    settles by the sign of the volume) -/
+theorem C18_winding_unique_up_to_components (w : SameDir) (adj : List (Nat × Nat)) (x1 x2 : Flips)
+    (h1 : ∀ e ∈ adj, inconsistent w x1 e.1 e.2 = false) (h2 : ∀ e ∈ adj, inconsistent w x2 e.1 e.2 = false) :
+    ∀ e ∈ adj, bxor (x1 e.1) (x2 e.1) = bxor (x1 e.2) (x2 e.2) :=
+  traversals_differ_by_components w adj x1 x2 h1 h2
+
+/-- non-vacuity: a tetrahedron with face 2 reversed (every pair involving face 2 runs the same way);
+    a search tree from face 0 satisfies the hypotheses and the traversal reverses exactly face 2 -/
+example :
+    let adj := [(0, 1), (0, 2), (0, 3), (1, 2), (1, 3), (2, 3)]
+    let w := sameDirOf [((0, 2), true), ((1, 2), true), ((2, 3), true)]
+    let tree := [(0, 1), (0, 2), (0, 3)]
+    treeOrder tree [] = true ∧ allConsistent w (traverse w tree) adj = true ∧
+      (List.range 4).map (traverse w tree) = [false, false, true, false] := by decide
+
+end winding
 
 end TV.C18
